@@ -16,7 +16,7 @@ ORACLE = {
     "C05": ["offsets", "offpad", "pos", "trail", "propsback", "ef", "dcf", "exits"],
     "C06": ["depth", "chunkrefs", "wf"],
     "C20": ["refusal", "status", "rt", "trail", "reload", "counts", "offsets", "offpad", "propsback", "wf",
-            "ef", "dcf", "exits"],
+            "ef", "dcf", "exits", "xspec"],
 }
 CORR = {
     "C20": ["reenc", "props"],
@@ -95,10 +95,10 @@ def run_art(cid, ctx, runs):
     samples = []
     oracle_fail, corr_fail = [], []
     refused = 0
-    for run in runs:
+    for ri, run in enumerate(runs):
         (mode, count, maxn, so, extra) = run[:5]
         chan = run[5] if len(run) > 5 else "art"
-        path = os.path.join(vlib.RUNS, "%s_%s_%s_%s.cases" % (cid, chan, mode, tier))
+        path = os.path.join(vlib.RUNS, "%s_%s_%s%d_%s.cases" % (cid, chan, mode, ri, tier))
         vlib.run_harness([chan, "--seed", str(seed + so), "--count", str(count), "--maxn", str(maxn),
                           "--mode", mode] + extra, path)
         order, cases, impl = vlib.read_cases(path)
